@@ -1,6 +1,7 @@
 package main
 
 import (
+	"fmt"
 	"go/ast"
 	"go/constant"
 	"go/token"
@@ -501,4 +502,151 @@ func exactGuard(ic *IC, exact map[*types.Func]bool, list []ast.Stmt, j int) toke
 		}
 	}
 	return token.NoPos
+}
+
+func init() {
+	ruleText["R03.14"] = "a function materialising a constant by its go/constant kind (switch over Value.Kind()) without being handed a target type consumes the exactness result of Int64Val/Uint64Val in its Int case: an untyped integer that does not fit is rejected, never wrapped"
+}
+
+// c03R14: functions switching over constant.Value.Kind() (no reflect.Type/Kind parameter, so the
+// representability function is not in play) must not discard the exactness flag of the
+// integer accessors. Round-5 seed: `i, _ := constant.Int64Val(c)` in convertConstantValue.
+func c03R14(ic *IC, r *Report) {
+	info := ic.Info
+	n := 0
+	for _, name := range sortedKeys(ic.F) {
+		fi := ic.F[name]
+		if fi.Decl.Body == nil || fi.Obj == nil {
+			continue
+		}
+		sig := fi.Obj.Type().(*types.Signature)
+		hasTarget := false
+		for i := 0; i < sig.Params().Len(); i++ {
+			ts := types.TypeString(sig.Params().At(i).Type(), nil)
+			if ts == "reflect.Type" || ts == "reflect.Kind" {
+				hasTarget = true
+			}
+		}
+		if hasTarget {
+			continue
+		}
+		ast.Inspect(fi.Decl.Body, func(m ast.Node) bool {
+			sw, ok := m.(*ast.SwitchStmt)
+			if !ok || sw.Tag == nil {
+				return true
+			}
+			call, ok := unparen(sw.Tag).(*ast.CallExpr)
+			if !ok || !isCallTo(info, call, "go/constant.Value.Kind") {
+				return true
+			}
+			for _, st := range sw.Body.List {
+				cc := st.(*ast.CaseClause)
+				isInt := false
+				for _, l := range cc.List {
+					if se, ok := unparen(l).(*ast.SelectorExpr); ok && se.Sel.Name == "Int" {
+						isInt = true
+					}
+				}
+				if !isInt || len(callsIn(info, cc, true, "reflect.ValueOf")) == 0 {
+					continue // the clause only tests the constant, it materialises nothing
+				}
+				for _, s := range cc.Body {
+					ast.Inspect(s, func(k ast.Node) bool {
+						as, ok := k.(*ast.AssignStmt)
+						if !ok || len(as.Lhs) != 2 || len(as.Rhs) != 1 {
+							return true
+						}
+						c, ok := unparen(as.Rhs[0]).(*ast.CallExpr)
+						if !ok || !isCallTo(info, c, "go/constant.Int64Val", "go/constant.Uint64Val") {
+							return true
+						}
+						n++
+						id := identOf(as.Lhs[1])
+						used := false
+						if id != nil && id.Name != "_" {
+							obj := info.ObjectOf(id)
+							ast.Inspect(cc, func(q ast.Node) bool {
+								if u, ok := q.(*ast.Ident); ok && u != id && info.ObjectOf(u) == obj {
+									used = true
+								}
+								return true
+							})
+						}
+						r.Check(used, "R03.14", funcName(fi.Decl)+"/integer-constant-materialised-exactly", ic.pos(as.Pos()), "the exactness result of the accessor is tested",
+							funcName(fi.Decl)+" converts an integer constant with "+types.ExprString(as.Rhs[0])+" and discards the exactness result: an untyped constant outside the 64-bit range (1 << 63, math.MaxUint64 in a switch case, a channel send, the result of Eval) is silently wrapped instead of rejected")
+						return true
+					})
+				}
+			}
+			return true
+		})
+	}
+	if n == 0 {
+		r.Errorf("R03.14: no function materialising integer constants by go/constant kind found")
+	}
+}
+
+// c03R8width (R03.8, width clause): in the representability function each rounding accessor
+// stands under a case naming the reflect kinds of its own width (Float32Val: Float32,
+// Complex64; Float64Val: Float64, Complex128). A float case that rounds every constant through
+// Float64Val accepts constants between MaxFloat32 and MaxFloat64 as float32 (round-5 seed).
+func c03R8width(ic *IC, r *Report) {
+	info := ic.Info
+	var repr *FuncInfo
+	for f, fi := range ic.G.Funcs {
+		sg := f.Type().(*types.Signature)
+		if fi.Decl.Body != nil && sg.Recv() == nil && sg.Params().Len() == 2 && sg.Results().Len() == 1 &&
+			types.TypeString(sg.Params().At(0).Type(), nil) == "go/constant.Value" && types.TypeString(sg.Params().At(1).Type(), nil) == "reflect.Type" &&
+			types.Identical(sg.Results().At(0).Type(), types.Typ[types.Bool]) {
+			if repr == nil || fi.Decl.Pos() < repr.Decl.Pos() {
+				repr = fi
+			}
+		}
+	}
+	if repr == nil {
+		r.Errorf("R03.8: the representability function func(constant.Value, reflect.Type) bool was not found")
+		return
+	}
+	want := map[string][]string{"Float32Val": {"Float32", "Complex64"}, "Float64Val": {"Float64", "Complex128"}}
+	n := 0
+	cnt := map[string]int{}
+	for _, c := range callsIn(info, repr.Decl.Body, true, "go/constant.Float32Val", "go/constant.Float64Val") {
+		name := calleeOf(info, c).Name()
+		n++
+		okKinds := false
+		var named []string
+		for _, p := range enclosingPath(repr.Decl.Body, c) {
+			cc, ok := p.(*ast.CaseClause)
+			if !ok {
+				continue
+			}
+			for _, l := range cc.List {
+				if se, ok := unparen(l).(*ast.SelectorExpr); ok {
+					if id := identOf(se.X); id != nil && id.Name == "reflect" {
+						named = append(named, se.Sel.Name)
+					}
+				}
+			}
+		}
+		if len(named) > 0 {
+			okKinds = true
+			for _, k := range named {
+				match := false
+				for _, w := range want[name] {
+					if k == w {
+						match = true
+					}
+				}
+				if !match {
+					okKinds = false
+				}
+			}
+		}
+		cnt[name]++
+		r.Check(okKinds, "R03.8", fmt.Sprintf("%s/%s#%d/under-a-case-of-its-width", funcName(repr.Decl), name, cnt[name]), ic.pos(c.Pos()), "the rounding accessor is applied to kinds of its own width only",
+			fmt.Sprintf("%s rounds the constant with constant.%s outside a case naming exactly the kinds of that width (enclosing kind cases: %v): a constant is then tested against the range of another width, e.g. 1e39 accepted as float32 (it becomes +Inf) or 3.4028235e38 rejected", funcName(repr.Decl), name, named))
+	}
+	if n < 4 {
+		r.Errorf("R03.8: only %d rounding accessors found in the representability function (float32, float64, complex64 x2, complex128 x2 expected)", n)
+	}
 }
